@@ -192,7 +192,7 @@ def gen_sched(g):
             meths = None
         for (li, ch) in pts:
             m = rng.choice(gen.POSITIONAL_METHODS) if meths is None else meths[0]
-            ops.append(gen.positional(rid(), m, p, li, ch))
+            ops.append(gen.positional(rid(), m, p, li, ch, rng=rng))
 
     def open_doc(p):
         ops.append(gen.did_open(p, disk[p]))
